@@ -279,6 +279,10 @@ def reset_weights(module):
         module.bias.data.zero_()
         module.running_mean.zero_()
         module.running_var.fill_(1)
+    elif isinstance(module, ResampledGaussian):
+        # The acceptance network has been reset (children are visited
+        # first), so the normalisation constant must be estimated again
+        module.estimate_normalisation_constant()
     else:
         logger.warning(f"Could not reset: {module}")
 
